@@ -116,7 +116,8 @@ class Detector:
         shot_noise = np.random.poisson(electrons, (frames, electrons.size))
 
         if self.prnu is not None:
-            shot_noise = shot_noise * self.prnu
+            # the electrons were raveled above; ravel the map the same way
+            shot_noise = shot_noise * np.ravel(self.prnu)
 
         # 0 is zero mean
         read_noise = np.random.normal(0, self.read_noise, shot_noise.shape)
